@@ -163,13 +163,22 @@ def main(argv):
                     audit_problems.append(f"{n}: inadmissible axioms {sorted(set(axioms[n]) - ALLOWED_AXIOMS)}")
             if rc_a != 0 and not audit_problems:
                 audit_problems.append("audit file failed: " + out_a[-300:])
-        for dirpath, _, files in os.walk(os.path.join(LEAN, "SecsModel")):
-            for f in files:
-                if f.endswith(".lean"):
-                    txt = strip_comments(open(os.path.join(dirpath, f)).read())
-                    m = FORBIDDEN.search(txt)
-                    if m:
-                        audit_problems.append(f"{os.path.relpath(os.path.join(dirpath, f), LEAN)}: forbidden token {m.group(0).strip()!r}")
+        # forbidden tokens: every file the property's modules (and its driver domains) import, transitively
+        todo = list(spec["modules"]) + [f"SecsModel.Drv.{domains[w]}" for w in spec.get("driver_domains", []) if w in domains]
+        seen_mods = set()
+        while todo:
+            mod = todo.pop()
+            if mod in seen_mods or not mod.startswith("SecsModel"):
+                continue
+            seen_mods.add(mod)
+            fp = os.path.join(LEAN, *mod.split(".")) + ".lean"
+            if not os.path.exists(fp):
+                continue
+            raw = open(fp).read()
+            todo += re.findall(r"^import\s+(SecsModel[\w.]*)", raw, re.M)
+            m = FORBIDDEN.search(strip_comments(raw))
+            if m:
+                audit_problems.append(f"{os.path.relpath(fp, LEAN)}: forbidden token {m.group(0).strip()!r}")
     finally:
         fcntl.flock(lockf, fcntl.LOCK_UN)
         lockf.close()
